@@ -300,8 +300,10 @@ def quantRes (o : Oracle) (rtl : Bool) (x x' : Pat) (lzy : Bool) (lo : Nat) (hi 
   if lzy = lzy' ∧ lo = lo' ∧ hi = hi' then
     if r.sites.isEmpty then r
     else if hi = some 1 then
-      -- `case NtLoop: if node.N == 1`: an optional construct in tail position
-      r.close.topOf 0
+      -- an optional construct (`case NtLoop: if node.N == 1`; in `processNode` through
+      -- `FindLastExpressionInLoopForAutoAtomic`): there is no second iteration, the pending sites of
+      -- the body are those of the loop
+      { r with head := r.headOK }
     else if rtl then
       -- a rewritten place at the end of a right-to-left loop body: not modelled
       { r with errs := r.errs ++ [.other 40] }
